@@ -383,6 +383,9 @@ def run(ctx):
         ctx.functions.update(funcs)
     ctx.replayers['C09.identity.'] = replay_identity_order
     order_obligations(ctx)
+    # targets drawn from hash-ordered node sets: the node_targets wrapper visits every cached node and forwards every target
+    from checks import helpers_ob
+    helpers_ob.helper_obligations(ctx, 'C09')
     bounded_search_independence(ctx)
     ctx.replayers['C09.'] = lambda r: dict(reproduced=None, detail='see counterexample / meta')
 
